@@ -55,7 +55,11 @@ PROP = {
         {"name": "c10_segfault_3", "src": "c04_segfault.cpp", "sanitize": "asan", "flags": ["-DSF_PART=3"], "timeout_quick": 600},
     ] + [
         {"name": "c10_treefault_%d" % k, "src": "c04_treefault.cpp", "sanitize": "asan", "flags": ["-DTF_PART=%d" % k], "timeout_quick": 600}
-        for k in range(1, 6)
+        for k in range(1, 7)
+    ] + [
+        # HashMap / TreeMap for every combination of key and value relocation categories (part = key category); see C04 rule (g)
+        {"name": "c10_mapcat_%d" % k, "src": "c10_mapcat.cpp", "sanitize": "asan", "flags": ["-DMC_PART=%d" % k, "-O0"], "timeout_quick": 600, "timeout_thorough": 3000}
+        for k in range(1, 5)
     ],
     "rule": ("sweeps: Insert(range of 17) and Remove(pred) on HashSet (LimP4, Open8) and TreeSet (node capacity 4, 32) of nothrow-move and copy-only "
              "elements at sizes 0, 5, 23; positional Insert (1, n copies, range) and Remove on Array / SegmentedArray at sizes 0, 4, 9; MergeTo for 8 "
@@ -71,6 +75,10 @@ PROP = {
              "ranges above all keys for the fast paths, empty destinations) run with one random (fault kind, k); the model predicts threw, counts, complete contents and "
              "node shapes of both containers and the ledger; the property's own oracle (sorted, unique, sub-multiset, conservation of source + destination + handle, "
              "nothing lost from the destination, nothing gained by the source, element-object count) runs beside it. "
+             "Maps, all key x value categories (c10_mapcat, see C04 rule (g)): extraction of every pair (leaf and internal tree items, hash items that are not the last of their bucket), "
+             "node-handle move, ExtractedPair::Remove, re-insertion into a map with / without the key, MergeTo / MergeFrom within and across the families, each under every k-th copy / assignment / "
+             "allocation / functor failure: the pair (key AND value, compared with the reference) lives in exactly one of source, handle, destination; element objects alive = expected. "
+             "c04_treefault part 6 adds copy-only items with noexcept swap (contiguous nodes) to the model-level tree histories. "
              "distinct_nontrivial = distinct (operation instance, fault kind, k) that raised."),
     "runtime_only": ["ASan/UBSan", "memory-manager ledger and element counters after every case"],
     "not_modelled": ["arrays: throwing item filters; Insert for input iterators",
